@@ -8,6 +8,18 @@ import sys
 ROOT = os.path.dirname(os.path.dirname(os.path.abspath(__file__)))
 
 CLAIMED = {
+    "C10": dict(
+        category="model_checking",
+        text="TLC checks a code-shaped model of the single-window processor and the MultiThread worker (FIFO channel, evict / load / materialise / "
+             "answer as separate steps, every interleaving with the feeder) against Rsp.tla: each emission is a function of the current and "
+             "previous window content only. Real engines built through RSPBuilder are fed seeded streams single-threaded and under perturbed "
+             "multi-threaded schedules; every firing recorded by the hooks is validated by TLC and the multi-threaded emission sequence must "
+             "equal the single-threaded one.",
+        design_ref="DESIGN.md section 5 (C10)",
+        note="Trusted: TLC, hooks (kolibrie/src/verif.rs, events written under the store lock), recording harness. Window queries are basic "
+             "graph patterns, rules positive N3 rules. Real schedules are perturbed, not enumerated; the exhaustive interleaving argument is on the model.",
+        technique="TLA+ model checking of a code-shaped pipeline model (TLC) + trace validation of hook-recorded firings under perturbed schedules",
+    ),
     "C02": dict(
         category="model_checking",
         text="For seeded (dataset, SELECT) pairs the harness obtains the optimizer's plan under fresh / stale / empty / adversarial statistics, "
